@@ -123,3 +123,33 @@ Example c18_nonvacuous_packing :
            (replacement_leaves key_size val_size true false 64%N (fun l r : key => l) es (KU64 0)) =
   [(4%nat, KU64 4); (3%nat, KU64 7)].
 Proof. vm_compute. reflexivity. Qed.
+
+(* ------------------------------------------------------------------------------------------------
+   Tie to the code (Gen/Fns.v is regenerated from btree_base.rs on every run by tools/gen_fns.py): the
+   split / merge policies the run packing and the cursor decisions above rely on are equal to the functions
+   translated from the Rust sources. *)
+From RV Require Import Gen.FnsLib Gen.Fns Gen.FnsBtreeP.
+
+Theorem c18_code_leaf_split_required_is_model : forall n bytes (fk fv : option N) ps,
+  Fns.leaf_split_required n bytes fk fv ps = Mutator.leaf_split_required (isSome fk) (isSome fv) ps n bytes.
+Proof. exact leaf_split_required_is_model. Qed.
+
+Theorem c18_code_leaf_fits_one_page_is_model : forall n bytes (fk fv : option N) ps,
+  Fns.leaf_fits_one_page n bytes fk fv ps = Mutator.leaf_fits (isSome fk) (isSome fv) ps n bytes.
+Proof. exact leaf_fits_is_model. Qed.
+
+Theorem c18_code_leaf_below_merge_threshold_is_model : forall n bytes (fk fv : option N) ps,
+  Fns.leaf_below_merge_threshold n bytes fk fv ps = Mutator.leaf_below_merge (isSome fk) (isSome fv) ps n bytes.
+Proof. exact leaf_below_merge_is_model. Qed.
+
+Theorem c18_code_leaf_required_bytes_is_model : forall n bytes (fk fv : option N),
+  RawLeafBuilder_required_bytes n bytes fk fv = Mutator.leaf_required (isSome fk) (isSome fv) n bytes.
+Proof. exact leaf_required_is_model. Qed.
+
+Theorem c18_code_leaf_split_division_is_model :
+  forall {K V} (ksize : K -> N) (vsize : V -> N) (es : list (K * V)),
+  Mutator.division ksize vsize es =
+  N.to_nat (LeafBuilder_build_split_clamp
+              (N.of_nat (Mutator.split_point ksize vsize es 0 (Mutator.leaf_bytes ksize vsize es / 2)%N))
+              (Mutator.nlen es) 65535%N).
+Proof. exact @division_is_model. Qed.
